@@ -48,9 +48,17 @@ func (ft *FuncTr) instr(b *ssa.BasicBlock, st *State, at *Term, in ssa.Instructi
 					bef[n] = ft.h.arr(st, n, srt)
 				}
 				ft.writeZero(st, at, pc, ty)
-				for n, b := range bef {
+				for _, n := range sortedKeysT(bef) {
+					b := bef[n]
 					if a, ok := st.heap[n]; ok && a.S != b.S {
 						ft.h.noteFreshFrame(b, a, idc)
+						// zero-initialising the new object leaves the element sets of slices over other arrays alone
+						if srt := b.Sort; srt != nil && srt.K == SPtr && elemsSupported(srt.V) && ft.elemsEager[srt.V.Mangle()] {
+							sv := &Term{"es", SSlc}
+							e1 := ft.h.elemsOf(a, sv, srt.V)
+							e0 := ft.h.elemsOf(b, sv, srt.V)
+							ft.assume(at, Forall([]Bound{{"es", SSlc}}, Implies(Or(IsNil(SlcArr(sv)), Not(Eq(PObjID(SlcArr(sv)), idc))), Eq(e1, e0)), []*Term{e1}))
+						}
 					}
 				}
 				return false, nil
